@@ -94,8 +94,11 @@ Definition check (c : case) : verdict :=
     let p := mk_proof pf in
     let bound :=
       (0 <=? pf_index p) && (pf_index p <? pf_total p) &&
-      match nth_error its (Z.to_nat (pf_index p)) with
-      | Some x => bytes_eqb x (unhex leaf) | None => false end in
+      (* (no [Z.to_nat] of an index beyond the list: vm_compute is call by value) *)
+      (if (0 <=? pf_index p) && (pf_index p <? Z.of_nat (List.length its))
+       then match nth_error its (Z.to_nat (pf_index p)) with
+            | Some x => bytes_eqb x (unhex leaf) | None => false end
+       else false) in
     first_of [
       (* the property: accepted against the true root with the true leaf count => bound *)
       viol (negb (ok_i && bytes_eqb (unhex root_h) (root Hs its)
